@@ -244,7 +244,7 @@ fn main() {
         let a = random_ibig(&mut rng, args.max_words);
         let b = match rng.below(8) {
             0 => a.clone(),
-            1 => !a.clone(),
+            1 => guarded_or(a.clone(), || !a.clone()),
             2 => random_ibig(&mut rng, 2),
             _ => random_ibig(&mut rng, args.max_words),
         };
